@@ -62,7 +62,7 @@ func (h listHandlers) Filelist(r *sftp.Request) (sftp.ListerAt, error) {
 
 func runC16(c *Ctx) {
 	c.Rule("request server with scripted listers: every directory size 0..2B+3 for batch sizes B in {1,2,3,7,22} (thorough: also 100), with and without '.'/'..' entries, both EOF styles (with the last entries / on the following call), " +
-		"full and pseudo-randomly shortened batches; kind extlisting: entries implementing FileInfoExtendedData with 0, 1 or 2 extended pairs each (names, sizes and pairs must arrive as reported); os-backed server on real directories of 0..300 entries (crossing 128 and 256); non-trivial = listing that spans at least two batches")
+		"full and pseudo-randomly shortened batches; kind extlisting: entries implementing FileInfoExtendedData with 0, 1 or 2 extended pairs each (names, sizes and pairs must arrive as reported); os-backed server on real directories of 0..300 entries (crossing 128 and 256) and of 130..2100 entries with names of 90..255 bytes; non-trivial = listing that spans at least two batches")
 	saved := sftp.MaxFilelist
 	defer func() { sftp.MaxFilelist = saved }()
 	bs := []int{1, 2, 3, 7, 22}
@@ -133,8 +133,16 @@ func runC16(c *Ctx) {
 			sizes = append(sizes, i)
 		}
 	}
+	type osCase struct{ size, nameLen int }
+	var osCases []osCase
+	for _, sz := range sizes {
+		osCases = append(osCases, osCase{sz, 4})
+	}
+	// "all entry names": long names make a response batch large (a batch must stay below what a client accepts in one packet)
+	osCases = append(osCases, osCase{130, 255}, osCase{300, 200}, osCase{700, 250}, osCase{1100, 120}, osCase{2100, 90})
 	for _, alloc := range []bool{false, true} {
-		for _, size := range sizes {
+		for _, oc := range osCases {
+			size := oc.size
 			dir, err := os.MkdirTemp("", "vh-c16-")
 			if err != nil {
 				continue
@@ -142,6 +150,9 @@ func runC16(c *Ctx) {
 			want := map[string]int64{}
 			for i := 0; i < size; i++ {
 				nme := fmt.Sprintf("f%03d", i)
+				if oc.nameLen > len(nme) {
+					nme += strings.Repeat("n", oc.nameLen-len(nme))
+				}
 				os.WriteFile(filepath.Join(dir, nme), make([]byte, i%7), 0o644)
 				want[nme] = int64(i % 7)
 			}
@@ -153,7 +164,10 @@ func runC16(c *Ctx) {
 			got, lerr := p.Client.ReadDir(dir)
 			p.Close()
 			os.RemoveAll(dir)
-			n := c.Case("oslisting", kvi("n", size), kvb("alloc", alloc))
+			n := c.Case("oslisting", kvi("n", size), kvb("alloc", alloc), kvi("namelen", oc.nameLen))
+			if oc.nameLen > 4 {
+				c.Stat("os_listing_long_names")
+			}
 			if size > 128 {
 				c.NT(n)
 			}
